@@ -90,6 +90,9 @@ theorem covers_nil_cons_iff (a : Attr) (lo hi : Nat) (y : Step) (q : Path) :
     subst h0
     exact ⟨j, q, h1, h2, rfl⟩
 
+theorem covers_nil_pair_iff (a : Attr) (lo hi : Nat) (b : Attr) (j : Nat) (q : Path) :
+    Covers [] a lo hi ((b, j) :: q) ↔ b = a ∧ lo ≤ j ∧ j < hi := covers_nil_cons_iff a lo hi (b, j) q
+
 theorem not_covers_nil (anchor : Path) (a : Attr) (lo hi : Nat) : ¬ Covers anchor a lo hi [] := by
   rintro ⟨j, rest, _, _, h⟩
   cases anchor <;> simp at h
